@@ -10,6 +10,8 @@ import Rsa.Lemmas.C17Rank
 import Rsa.Lemmas.C17Inv
 import Rsa.Lemmas.C17Map
 import Rsa.Lemmas.C17Geo
+import Rsa.Lemmas.C17Leaf
+import Rsa.Lemmas.C17Quant
 import Mathlib.Data.Finset.Card
 import Mathlib.Analysis.SpecialFunctions.Pow.Real
 
@@ -425,6 +427,7 @@ theorem geotop_clipped_linear (lo hi : K) (h : lo < hi) (a : K) :
   have key : ∀ t : K, geotopVal lo hi t = some (min 1 (max 0 ((t - lo) / (hi - lo)))) := by
     intro t
     unfold geotopVal
+    rw [if_pos (Or.inr (Or.inl h)), geotopEntry_eq]
     by_cases h1 : hi < t
     · have : 1 ≤ (t - lo) / (hi - lo) := by rw [le_div_iff₀ hd]; linarith
       simp [h1, min_eq_left (le_trans this (le_max_right _ _))]
@@ -433,7 +436,7 @@ theorem geotop_clipped_linear (lo hi : K) (h : lo < hi) (a : K) :
         simp [h1, h2, max_eq_left this]
       · have h3 : 0 ≤ (t - lo) / (hi - lo) := div_nonneg (by linarith [not_lt.mp h2]) hd.le
         have h4 : (t - lo) / (hi - lo) ≤ 1 := by rw [div_le_one hd]; linarith [not_lt.mp h1]
-        simp [h1, h2, h, max_eq_right h3, min_eq_right h4]
+        simp [h1, h2, max_eq_right h3, min_eq_right h4]
   refine ⟨key a, fun b hab => ⟨_, _, key a, key b, ?_⟩⟩
   have : (a - lo) / (hi - lo) ≤ (b - lo) / (hi - lo) :=
     div_le_div_of_nonneg_right (by linarith) hd.le
@@ -531,8 +534,10 @@ theorem geoWeights_spec (n : ℕ) (mm : List K) (i j : ℕ) (hij : i < j) :
     | none => rfl
     | some x =>
       by_cases hx : x = 1
-      · simp [hx]
-      · have : x < 1 ∨ 1 < x := lt_or_gt_of_ne hx
+      · have : ¬ Rsa.Gen.C17.geoKeep x = 1 := fun hk => (geoKeep_eq_one_iff x).mp hk hx
+        show (if Rsa.Gen.C17.geoKeep x = 1 then some x else none) = (if x = 1 then none else some x)
+        rw [if_neg this, if_pos hx]
+      · have : Rsa.Gen.C17.geoKeep x = 1 := (geoKeep_eq_one_iff x).mpr hx
         simp [hx, this]
   · simp only [geoWeights, vecToMat, hij.ne, hij, hne, hnlt, ↓reduceIte]
   · simp [geoWeights, vecToMat]
@@ -552,10 +557,10 @@ theorem geoWeights_mem {n : ℕ} {mm : List K} {i j : ℕ} {c : K} (h : geoWeigh
   | none => simp [hv] at h
   | some x =>
     simp only [hv] at h
-    by_cases hx : x < 1 ∨ 1 < x
+    by_cases hx : Rsa.Gen.C17.geoKeep x = 1
     · simp only [hx, ↓reduceIte, Option.some.injEq] at h
       subst h
-      refine ⟨?_, fun h1 => by rcases hx with hx | hx <;> simp [h1] at hx⟩
+      refine ⟨?_, (geoKeep_eq_one_iff x).mp hx⟩
       unfold vecToMat at hv
       by_cases h1 : i = j
       · simp [h1] at hv
@@ -625,9 +630,343 @@ example : geodesicT 3 ([1, 2, 4] : List ℚ) = some [some 0, some (1/3), some (1
 /-- non-vacuity of `geodesic_shortest_path`: a concrete non-negative graph and walk -/
 example : NonNeg (geoWeights 3 ([0, 1/3, 1] : List ℚ)) ∧
     IsWalk 3 (geoWeights 3 ([0, 1/3, 1] : List ℚ)) [2, 0, 1] := by
-  refine ⟨fun a b c h => ?_, by simp [IsWalk, geoWeights, vecToMat, triIdx]⟩
+  refine ⟨fun a b c h => ?_, by simp [IsWalk, geoWeights, vecToMat, triIdx, geoKeep_eq_one_iff]⟩
   have := (geoWeights_mem h).1
   simp at this
   rcases this with rfl | rfl | rfl <;> norm_num
+
+/-! ## 5. `np.quantile` (default method 'linear') as modelled by `quantileLin` -/
+
+/-- the index arithmetic: `k` with `k ≤ q·(n-1) < k+1` (capped at the last position) and the
+    interpolation `s[k] + (q·(n-1) - k)·(s[k+1] - s[k])` -/
+theorem quantile_index_spec (s : List K) (q : K) (h0 : 0 ≤ q) :
+    ∃ k : ℕ, k ≤ s.length - 1 ∧ (k : K) ≤ q * ((s.length - 1 : ℕ) : K) ∧
+      (k < s.length - 1 → q * ((s.length - 1 : ℕ) : K) < (k : K) + 1) ∧
+      quantileLin s q =
+        s.getD k 0 + (q * ((s.length - 1 : ℕ) : K) - k) * (s.getD (k + 1) (s.getD k 0) - s.getD k 0) := by
+  refine ⟨qIdx (s.length - 1) (q * ((s.length - 1 : ℕ) : K)), qIdx_le _ _,
+    qIdx_cast_le (mul_nonneg h0 (Nat.cast_nonneg _)), fun h => ?_, quantileLin_eq s q⟩
+  have := lt_qIdx_succ (m := s.length - 1) (pos := q * ((s.length - 1 : ℕ) : K)) h
+  push_cast at this
+  exact this
+
+/-- **contract of `np.quantile`, method 'linear'** (numpy's `_quantile`: `virtual_index = q·(n-1)`,
+    `previous = floor(virtual_index)`, `next = previous + 1` clipped to `n-1`,
+    `gamma = virtual_index - previous`, result `a[previous] + gamma·(a[next] - a[previous])` on the
+    sorted data): the model computes exactly this -/
+theorem quantile_numpy_linear [FloorSemiring K] (s : List K) (hne : s ≠ []) (q : K) (h0 : 0 ≤ q)
+    (h1 : q ≤ 1) :
+    quantileLin s q =
+      s.getD ⌊q * ((s.length - 1 : ℕ) : K)⌋₊ 0 +
+        (q * ((s.length - 1 : ℕ) : K) - (⌊q * ((s.length - 1 : ℕ) : K)⌋₊ : K)) *
+        (s.getD (min (⌊q * ((s.length - 1 : ℕ) : K)⌋₊ + 1) (s.length - 1)) 0 -
+          s.getD ⌊q * ((s.length - 1 : ℕ) : K)⌋₊ 0) := by
+  have hn0 : (0 : K) ≤ ((s.length - 1 : ℕ) : K) := Nat.cast_nonneg _
+  have hp0 : 0 ≤ q * ((s.length - 1 : ℕ) : K) := mul_nonneg h0 hn0
+  have hple : q * ((s.length - 1 : ℕ) : K) ≤ ((s.length - 1 : ℕ) : K) := by
+    calc q * ((s.length - 1 : ℕ) : K) ≤ 1 * ((s.length - 1 : ℕ) : K) :=
+          mul_le_mul_of_nonneg_right h1 hn0
+      _ = _ := one_mul _
+  have hfl : ⌊q * ((s.length - 1 : ℕ) : K)⌋₊ ≤ s.length - 1 := Nat.floor_le_of_le hple
+  have hk : qIdx (s.length - 1) (q * ((s.length - 1 : ℕ) : K)) = ⌊q * ((s.length - 1 : ℕ) : K)⌋₊ := by
+    rw [qIdx_eq_floor _ hp0, min_eq_right hfl]
+  rw [quantileLin_eq, hk, next_getD s _ hfl hne]
+
+example : quantileLin ([1, 2, 4, 8] : List ℚ) (3/4) = 5 := by decide +kernel
+
+/-- on ascending data the quantile lies between the two neighbouring order statistics, hence
+    between the smallest and the largest entry -/
+theorem quantile_between_neighbours {s : List K} (hs : s.Pairwise (· ≤ ·)) (hne : s ≠ []) {q : K}
+    (h0 : 0 ≤ q) (h1 : q ≤ 1) :
+    ∃ k : ℕ, k ≤ s.length - 1 ∧ s.getD k 0 ≤ quantileLin s q ∧
+      quantileLin s q ≤ s.getD (min (k + 1) (s.length - 1)) 0 ∧
+      s.getD 0 0 ≤ quantileLin s q ∧ quantileLin s q ≤ s.getD (s.length - 1) 0 := by
+  have hpos := List.length_pos_iff.mpr hne
+  obtain ⟨l, u⟩ := quantileLin_between hs hne h0 h1
+  have hk := qIdx_le (s.length - 1) (q * ((s.length - 1 : ℕ) : K))
+  refine ⟨_, hk, l, u, le_trans (sorted_getD_le hs (Nat.zero_le _) (by omega)) l,
+    le_trans u (sorted_getD_le hs (min_le_right _ _) (by omega))⟩
+
+/-- `np.quantile(data, q)` is monotone in `q` -/
+theorem quantile_monotone {s : List K} (hs : s.Pairwise (· ≤ ·)) (hne : s ≠ []) {q1 q2 : K}
+    (h0 : 0 ≤ q1) (h12 : q1 ≤ q2) (h1 : q2 ≤ 1) : quantileLin s q1 ≤ quantileLin s q2 :=
+  quantileLin_mono hs hne h0 h12 h1
+
+/-- on the grid `q = j/(n-1)` the quantile is the `j`-th order statistic -/
+theorem quantile_grid (s : List K) (q : K) (j : ℕ) (hj : j ≤ s.length - 1)
+    (hq : q * ((s.length - 1 : ℕ) : K) = (j : K)) : quantileLin s q = s.getD j 0 :=
+  quantileLin_grid s q j hj hq
+
+example : sortAsc ([3, 1, 2] : List ℚ) = [1, 2, 3] ∧ ([1, 2, 3] : List ℚ).Pairwise (· ≤ ·) := by
+  refine ⟨by norm_num [sortAsc, List.mergeSort, List.MergeSort.Internal.splitInTwo, List.merge], ?_⟩
+  norm_num [List.pairwise_cons]
+
+/-- the two thresholds of `geotopological_transform` are ordered like the quantile levels and
+    lie within the range of the stack: the transform is the clipped linear map *between* them -/
+theorem geotop_thresholds_ordered (low up : K) (h0 : 0 ≤ low) (hlu : low ≤ up) (h1 : up ≤ 1)
+    (vs : List (List K)) (hne : vs.flatten ≠ []) :
+    (geotopStack low up vs).1 ≤ (geotopStack low up vs).2.1 ∧
+    (∃ a ∈ vs.flatten, a ≤ (geotopStack low up vs).1) ∧
+    (∃ b ∈ vs.flatten, (geotopStack low up vs).2.1 ≤ b) := by
+  have hs := sortAsc_pairwise vs.flatten
+  have hn := sortAsc_ne_nil hne
+  have hpos := List.length_pos_iff.mpr hn
+  have hmem : ∀ i, i < (sortAsc vs.flatten).length → (sortAsc vs.flatten).getD i 0 ∈ vs.flatten := by
+    intro i hi
+    rw [List.getD_eq_getElem _ _ hi]
+    exact (sortAsc_perm vs.flatten).mem_iff.mp (List.getElem_mem hi)
+  simp only [geotopStack, gtQa_eq, gtQb_eq]
+  obtain ⟨_, _, _, _, l0, _⟩ := quantile_between_neighbours hs hn h0 (le_trans hlu h1)
+  obtain ⟨_, _, _, _, _, u1⟩ := quantile_between_neighbours hs hn (le_trans h0 hlu) h1
+  exact ⟨quantileLin_mono hs hn h0 hlu h1, ⟨_, hmem 0 hpos, l0⟩, ⟨_, hmem _ (by omega), u1⟩⟩
+
+/-! ## 6. degenerate inputs, as coded: coinciding thresholds, NaN where it is not supported -/
+
+/-- an entry becomes NaN exactly when it sits on two coinciding thresholds (0/0) -/
+theorem geotop_undefined_iff (lo hi a : K) : geotopVal lo hi a = none ↔ lo = hi ∧ a = lo := by
+  unfold geotopVal
+  constructor
+  · intro h
+    by_cases hc : (hi < a ∨ a < lo) ∨ (lo < hi ∨ hi < lo)
+    · rw [if_pos hc] at h
+      exact absurd h (by simp)
+    · push Not at hc
+      obtain ⟨⟨h1, h2⟩, h3, h4⟩ := hc
+      exact ⟨le_antisymm h4 h3, le_antisymm (by rw [le_antisymm h4 h3]; exact h1) h2⟩
+  · rintro ⟨rfl, rfl⟩
+    simp
+
+/-- with coinciding thresholds (e.g. `low = up`, or a heavily tied stack) the transform is a
+    step: 0 below, 1 above, NaN on the threshold; a constant stack becomes NaN everywhere -/
+theorem geotop_coinciding_thresholds (t a : K) :
+    geotopVal t t a = (if t < a then some 1 else if a < t then some 0 else none) := by
+  unfold geotopVal
+  rw [geotopEntry_eq]
+  by_cases h1 : t < a
+  · simp [h1]
+  · by_cases h2 : a < t
+    · simp [h1, h2]
+    · simp [h1, h2]
+
+example : geotopT (2 : ℚ) 2 [1, 2, 3] = [some 0, none, some 1] := by decide +kernel
+
+/-- `minmax_transform` does not support NaN: an RDM with a missing entry becomes NaN
+    everywhere (its max and min are NaN); a NaN-free RDM is transformed as `minmaxT` says -/
+theorem minmax_nan_as_coded (v : List (Option K)) :
+    (none ∈ v → minmaxNanT v = v.map (fun _ => none)) ∧
+    (∀ x : List K, v = x.map some →
+      minmaxNanT v = match minmaxT x with
+                     | some r => r.map some
+                     | none => v.map (fun _ => none)) := by
+  constructor
+  · intro h
+    unfold minmaxNanT
+    rw [all_isSome_eq_false h]
+    simp
+  · rintro x rfl
+    unfold minmaxNanT
+    rw [all_isSome_map_some, present_map_some]
+    cases minmaxT x <;> simp
+
+example : minmaxNanT ([some 1, none, some 3] : List (Option ℚ)) = [none, none, none] ∧
+    minmaxNanT ([some 1, some 2, some 3] : List (Option ℚ)) = [some 0, some (1/2), some 1] := by
+  decide +kernel
+
+/-- `geotopological_transform` does not support NaN: one missing entry anywhere in the stack
+    makes both thresholds NaN and with them every entry of every RDM; a NaN-free stack is
+    transformed as `geotopStack` says -/
+theorem geotop_nan_as_coded (low up : K) (vs : List (List (Option K))) :
+    ((∃ v ∈ vs, none ∈ v) → geotopNanStack low up vs = vs.map (fun v => v.map (fun _ => none))) ∧
+    (∀ xs : List (List K), vs = xs.map (fun x => x.map some) →
+      geotopNanStack low up vs = (geotopStack low up xs).2.2) := by
+  constructor
+  · rintro ⟨v, hv, hn⟩
+    unfold geotopNanStack
+    have : vs.all (fun v => v.all Option.isSome) = false := by
+      rw [List.all_eq_false]
+      exact ⟨v, hv, by rw [all_isSome_eq_false hn]; simp⟩
+    rw [this]
+    simp
+  · rintro xs rfl
+    unfold geotopNanStack
+    have h1 : (xs.map (fun x => x.map some)).all (fun v => v.all Option.isSome) = true := by
+      rw [List.all_eq_true]
+      intro v hv
+      obtain ⟨x, _, rfl⟩ := List.mem_map.mp hv
+      exact all_isSome_map_some x
+    have h2 : (xs.map (fun x => x.map some)).map present = xs := by
+      rw [List.map_map]
+      conv_rhs => rw [← List.map_id xs]
+      apply List.map_congr_left
+      intro x _
+      exact present_map_some x
+    rw [h1, h2]
+    simp
+
+/-- `geodesic_transform` raises (for the whole stack) exactly when some RDM has a missing entry
+    or is constant — "constant RDMs under geodesic" and "NaN where supported", as coded -/
+theorem geodesic_raises_iff (n : ℕ) (vs : List (List (Option K))) :
+    geodesicStack n vs = none ↔
+      ∃ v ∈ vs, none ∈ v ∨ (∀ a ∈ present v, ∀ b ∈ present v, a = b) := by
+  unfold geodesicStack
+  rw [allSome_eq_none_iff, List.mem_map]
+  have hg : ∀ x : List K, geodesicT n x = none ↔ ∀ a ∈ x, ∀ b ∈ x, a = b := by
+    intro x
+    rw [← minmax_undefined_iff_constant]
+    unfold geodesicT
+    cases minmaxT x <;> simp
+  constructor
+  · rintro ⟨v, hv, h⟩
+    refine ⟨v, hv, ?_⟩
+    unfold geodesicRow at h
+    cases ha : allSome v with
+    | none => exact Or.inl ((allSome_eq_none_iff v).mp ha)
+    | some x =>
+      rw [ha] at h
+      have hx : v = x.map some := (allSome_eq_some_iff v x).mp ha
+      right
+      rw [hx, present_map_some]
+      exact (hg x).mp h
+  · rintro ⟨v, hv, h⟩
+    refine ⟨v, hv, ?_⟩
+    unfold geodesicRow
+    cases ha : allSome v with
+    | none => rfl
+    | some x =>
+      have hx : v = x.map some := (allSome_eq_some_iff v x).mp ha
+      rcases h with h | h
+      · rw [hx] at h; simp at h
+      · rw [hx, present_map_some] at h
+        exact (hg x).mpr h
+
+/-- when `geodesic_transform` does not raise, no entry is missing and every RDM is
+    transformed by `geodesicT` (to which `geodesicT_spec` applies) -/
+theorem geodesic_stack_rows (n : ℕ) (vs : List (List (Option K))) (rs : List (List (Option K)))
+    (h : geodesicStack n vs = some rs) :
+    ∃ xs : List (List K), vs = xs.map (fun x : List K => x.map some) ∧
+      xs.map (geodesicT n) = rs.map some := by
+  unfold geodesicStack at h
+  have h' := (allSome_eq_some_iff _ rs).mp h
+  have hall : ∀ v ∈ vs, ∃ x : List K, v = x.map some := by
+    intro v hv
+    cases ha : allSome v with
+    | none =>
+      have hm : geodesicRow n v ∈ vs.map (geodesicRow n) := List.mem_map_of_mem hv
+      rw [h'] at hm
+      unfold geodesicRow at hm
+      rw [ha] at hm
+      simp at hm
+    | some x => exact ⟨x, (allSome_eq_some_iff v x).mp ha⟩
+  refine ⟨vs.map present, ?_, ?_⟩
+  · rw [List.map_map]
+    conv_lhs => rw [← List.map_id vs]
+    apply List.map_congr_left
+    intro v hv
+    obtain ⟨x, rfl⟩ := hall v hv
+    simp [present_map_some]
+  · rw [← h', List.map_map]
+    apply List.map_congr_left
+    intro v hv
+    obtain ⟨x, rfl⟩ := hall v hv
+    have : allSome (x.map some) = some x := (allSome_eq_some_iff _ x).mpr rfl
+    simp [present_map_some, geodesicRow, this]
+
+example : geodesicStack 3 ([[some 1, some 2, some 4], [some 2, some 2, some 2]] : List (List (Option ℚ))) = none ∧
+    geodesicStack 3 ([[some 1, some 2, some 4]] : List (List (Option ℚ))) =
+      some [[some 0, some (1/3), some (1/3)]] := by
+  decide +kernel
+
+/-! ## 7. the boundary of the invariance claims; what the source text says (leaves) -/
+
+/-- Kendall's tau-a and tau-b are unchanged when *both* RDMs are mapped by (different) strictly
+    increasing maps -/
+theorem kendall_strictMono_invariant_both {f g : ℝ → ℝ} {s t : Set ℝ} (hf : StrictMonoOn f s)
+    (hg : StrictMonoOn g t) (x y : List ℝ) (hx : ∀ a ∈ x, a ∈ s) (hy : ∀ a ∈ y, a ∈ t) :
+    tauA (x.map f) (y.map g) = tauA x y ∧ tauB (x.map f) (y.map g) = tauB x y := by
+  constructor
+  · rw [(tauA_strictMono_invariant hf x (y.map g) hx).1, (tauA_strictMono_invariant hg y x hy).2]
+  · rw [(tauB_strictMono_invariant hf x (y.map g) hx).1, (tauB_strictMono_invariant hg y x hy).2]
+
+/-- the whitened correlation (`corr_cov`) is unchanged by a positive-slope affine map: mean
+    removal turns it into the scaling by the slope, which scales the solution of `V s = r` -/
+theorem whitened_corr_affine_invariant {a : ℝ} (ha : 0 < a) (b : ℝ) (V : List (List ℝ))
+    (x1 r2 s1 s2 : List ℝ) (h1 : matVec V s1 = center x1) :
+    matVec V (s1.map (a * ·)) = center (x1.map (fun t => a * t + b)) ∧
+    wcosFrom (center (x1.map (fun t => a * t + b))) r2 (s1.map (a * ·)) s2 =
+      wcosFrom (center x1) r2 s1 s2 := by
+  rw [center_map_affine]
+  obtain ⟨e1, e2, _⟩ := whitened_scale_invariant ha V (center x1) r2 s1 s2 h1
+  exact ⟨e1, e2⟩
+
+/-- boundary: cosine-type measures are *not* invariant under a shift -/
+theorem cosine_not_shift_invariant :
+    ∃ (x y : List ℝ) (c : ℝ), cosine (x.map (· + c)) y ≠ cosine x y := by
+  refine ⟨[1, 0], [0, 1], 1, ?_⟩
+  have h0 : cosine ([1, 0] : List ℝ) [0, 1] = 0 := by
+    simp [cosine, dot]
+  have h1 : 0 < cosine (([1, 0] : List ℝ).map (· + 1)) [0, 1] := by
+    have e : dot (([1, 0] : List ℝ).map (· + 1)) (([1, 0] : List ℝ).map (· + 1)) = 5 := by
+      simp [dot]; norm_num
+    have e2 : dot ([0, 1] : List ℝ) [0, 1] = 1 := by simp [dot]
+    have e3 : dot (([1, 0] : List ℝ).map (· + 1)) [0, 1] = 1 := by simp [dot]
+    unfold cosine
+    simp only [e, e2, e3, hasSqrt_real]
+    have p5 : 0 < Real.sqrt 5 := Real.sqrt_pos.mpr (by norm_num)
+    have p1 : 0 < Real.sqrt 1 := Real.sqrt_pos.mpr (by norm_num)
+    rw [if_pos ⟨p5, p1⟩]
+    positivity
+  rw [h0]
+  exact h1.ne'
+
+/-- boundary: correlation-type measures are *not* invariant under every strictly increasing
+    map (only under positive affine ones): cubing changes Pearson's r -/
+theorem corr_not_monotone_invariant :
+    ∃ (f : ℝ → ℝ), StrictMono f ∧ ∃ x y : List ℝ, corr (x.map f) y ≠ corr x y := by
+  refine ⟨fun t => t ^ 3, (Odd.strictMono_pow (by decide : Odd 3)), [0, 1, 2], [1, -2, 1], ?_⟩
+  have h0 : corr ([0, 1, 2] : List ℝ) [1, -2, 1] = 0 := by
+    have : dot (center ([0, 1, 2] : List ℝ)) (center ([1, -2, 1] : List ℝ)) = 0 := by
+      simp [dot, center, mean]; norm_num
+    unfold corr cosine
+    rw [this]
+    simp
+  have h1 : 0 < corr (([0, 1, 2] : List ℝ).map (fun t => t ^ 3)) [1, -2, 1] := by
+    have e1 : center (([0, 1, 2] : List ℝ).map (fun t => t ^ 3)) = [-3, -2, 5] := by
+      simp [center, mean]; norm_num
+    have e2 : center ([1, -2, 1] : List ℝ) = [1, -2, 1] := by
+      simp [center, mean]; norm_num
+    unfold corr cosine
+    rw [e1, e2]
+    have d1 : dot ([-3, -2, 5] : List ℝ) [-3, -2, 5] = 38 := by simp [dot]; norm_num
+    have d2 : dot ([1, -2, 1] : List ℝ) [1, -2, 1] = 6 := by simp [dot]; norm_num
+    have d3 : dot ([-3, -2, 5] : List ℝ) [1, -2, 1] = 6 := by simp [dot]; norm_num
+    simp only [d1, d2, d3, hasSqrt_real]
+    have p1 : 0 < Real.sqrt 38 := Real.sqrt_pos.mpr (by norm_num)
+    have p2 : 0 < Real.sqrt 6 := Real.sqrt_pos.mpr (by norm_num)
+    rw [if_pos ⟨p1, p2⟩]
+    positivity
+  rw [h0]
+  exact h1.ne'
+
+/-- the `nan_policy` the source passes to `rankdata` is 'omit': the coded rank transform is
+    the rank among the non-missing entries (leaf `rankNanPolicy`) -/
+theorem rankT_as_coded (m : RankMethod) (v : List (Option K)) : rankTCoded m v = rankT m v := by
+  unfold rankTCoded
+  rw [if_pos (by decide)]
+
+/-- every transform hands the array it built and the three descriptor dicts of the source to
+    the `RDMs` constructor (leaf `descrPass`, read off the source text) -/
+theorem descriptors_as_coded (k : Kind) : passesDescriptors k = true := by
+  cases k <;> decide
+
+/-- the remaining names: `sqrt_transform` prepends 'sqrt of' (as coded: without a blank) to
+    every name but the two squared ones; `rank_transform` appends ' (ranks)' once -/
+theorem measure_names_sqrt_rank (s : String) (h0 : s ≠ "squared euclidean")
+    (h1 : s ≠ "squared mahalanobis") :
+    newMeasure .sqrt (some s) = some ("sqrt of" ++ s) ∧
+    newMeasure .rank none = some "(ranks)" ∧
+    newMeasure .rank (some "correlation") = some "correlation (ranks)" ∧
+    newMeasure .rank (some "corr (ranks)") = some "corr (ranks)" := by
+  refine ⟨?_, by decide, by decide, by decide⟩
+  simp [newMeasure, sqrtName, h0, h1]
 
 end Rsa.Props.C17
